@@ -80,6 +80,9 @@ def make_texts(rng, tier):
     USPACE = ["\x0b", "\x0c", "\x85", "\xa0", "\u2028", "\u3000", "\u2003", "\x1f"]
     for sp in USPACE:
         fixed += [BASE + sp, sp + BASE, BASE + "\n" + sp + "\n", 'rule "u" begin end' + sp]
+    # texts that BEGIN with blank lines, spaces or comment lines (positions inside are counted from the first character of the text)
+    v0 = rule_text("a", 5, "d1", "x = 1 + f(2) return x") + "\n" + rule_text("b", -3, "d2", "if a > 1 { b = 2 }")
+    fixed += ["\n\n\n" + v0, "   \n\t\n" + v0, "// c\n\n" + v0, "\n" + v0 + "\n\n", " " + v0]
     for t in fixed:
         texts.append(("fixed", t))
     # truncations: every token-boundary PREFIX and SUFFIX of one valid two-rule text (a text cut right after `rule`, after the
@@ -235,6 +238,15 @@ def main(run):
                     problems.append((o["id"], "replace-differs", n))
             if kind == "resubmitted" and parsed != base_rules_full:
                 problems.append((o["id"], "replace-differs", "builder-full"))
+            # what a text compiles TO is the same through every entry point: the rules it defines have the same tree — node kinds,
+            # operands and SOURCE POSITIONS — wherever the text was submitted
+            ref = es["builder-full"].get("trees") or {}
+            for n in ENTRIES5:
+                if n != "builder-full" and acc.get(n):
+                    other = es[n].get("trees") or {}
+                    diff = [r for r in parsed if r in ref and r in other and ref[r] != other[r]]
+                    if diff:
+                        problems.append((o["id"], "tree-differs", "%s: rule(s) %s" % (n, diff[:3])))
             merged = dict(base_rules)
             merged.update(parsed)
             for n in ("builder-incremental", "pool-incremental-update"):
@@ -298,7 +310,7 @@ def main(run):
     cov["discharged"] += (1 if ok and not bad else 0) + (0 if problems or reader_problems else 1)
     cov.update({"evaluations": len(texts) * 5, "distinct_nontrivial": len(nontrivial),
                 "rule": "truncations first: token-boundary prefixes and suffixes of a valid two-rule text and 20 keyword-only / cut-off headers (where the parser's error recovery has nothing left to consume); then three streams: valid multi-rule texts over 11 body shapes (~38%), token-level mutations of valid texts — delete / replace / insert / swap of 1-3 tokens over a 70-token vocabulary with unknown characters, keyword case variants, unterminated strings and comments, huge literals (~32%), character-level edits of valid texts — delete / insert / replace 1-3 characters over letters, digits, dots, quotes, operators, brackets and white space, which exercise longest-match tokenisation (~15%), arbitrary bytes incl. NUL and non-ASCII (~15%), plus 16 fixed texts; every text is submitted to all five entry points from a known 3-rule state, and every third text (and all fixed texts) also from the EMPTY state (fresh builder / cleared pool); "
-                        "checked: returned normally (no panic / crash), pairwise accept/reject agreement, the full build's verdict and installed names / saliences / descriptions equal to those the reader model (Lang/Reader.v, evaluated inside Coq on the text) computes, exact state equality on reject, on accept the state equals the replacement / merge of the rules the text defines, sortedness and index consistency afterwards; "
+                        "checked: returned normally (no panic / crash), pairwise accept/reject agreement, the same compiled tree (positions included) for every rule of an accepted text through every entry point, the full build's verdict and installed names / saliences / descriptions equal to those the reader model (Lang/Reader.v, evaluated inside Coq on the text) computes, exact state equality on reject, on accept the state equals the replacement / merge of the rules the text defines, sortedness and index consistency afterwards; "
                         "distinct non-trivial = distinct texts that are valid with >= 2 rules, or mutated, or on which the entry points disagree",
                 "reader_model": {"texts_decided_inside_coq": len(rcs) - runsup, "outside_model_domain": runsup, "disagreements": len(reader_problems)},
                 "streams": stream_stats, "entry_points": ENTRIES5, "traces_validated_against_impl": len(texts),
